@@ -95,6 +95,8 @@ type gen struct {
 
 	// wantRestart asks the case runner for a clean restart of the node before the next step
 	wantRestart bool
+	// allowAbandon: callers may give up on a call while it is being worked on (C09 profile)
+	allowAbandon bool
 
 	// legit block hashes the harness proposed, by (h, r)
 	roundBlocks map[[2]uint64][]string
@@ -1738,6 +1740,23 @@ func (g *gen) attack() {
 		g.overlappingVotes(vh, vr, cr)
 	case x < 6:
 		g.conflictingCertificate(vh, vr, ch, cr)
+	case x < 8 && g.allowAbandon:
+		// a genuine vote for a round beyond the next one (or for the next height) whose caller
+		// gives up while the kernel is working on it
+		kind := kindPrevote
+		if g.pick(2) == 0 {
+			kind = kindPrecommit
+		}
+		fh, fr := vh, vr+2+uint32(g.pick(2))
+		if g.pick(4) == 0 {
+			fh, fr = vh+1, uint32(g.pick(2))
+		}
+		m := g.validVote(kind, fh, fr, "", g.w.minoritySubset(g.rng, fh))
+		m.desc = "abandoned-future-vote"
+		g.cs.count("attack.abandoned-future-vote")
+		g.n.abandonNext.Store(true)
+		g.sendVote(m)
+		g.n.abandonNext.Store(false)
 	case x < 40:
 		kind := kindPrevote
 		if g.pick(2) == 0 {
